@@ -294,3 +294,111 @@ pub fn check_batch_laws(ops: &Vec<BOp>, cx: &mut Cx) -> vcore::Res {
     cx.nontrivial(ops.iter().any(|o| matches!(o, BOp::Clear | BOp::FailAt(_))) && ops.iter().filter(|o| matches!(o, BOp::Push(_))).count() >= 2);
     Ok(())
 }
+
+
+// ---------------------------------------------------------------------------------------------------
+// C09 at the emitter: "the caller is never made to wait on the destination however slow, stalled or
+// unreachable it is", and what is pending stays within the channel's capacity.
+
+#[derive(Serialize, Deserialize, Debug, Clone)]
+pub struct StallCase {
+    /// events each emitting thread emits (the file set's channel holds 10 000)
+    pub threads: Vec<u32>,
+    /// the filesystem stalls from this call on (0 = the worker never gets anywhere)
+    pub stall_after: u8,
+    pub filler: u8,
+}
+
+pub fn stall_case() -> impl Strategy<Value = StallCase> {
+    (
+        prop::collection::vec(prop_oneof![3 => 0u32..400, 2 => 400u32..6_000, 1 => 6_000u32..13_000], 1..=3),
+        prop_oneof![2 => Just(0u8), 2 => 1u8..8, 1 => 8u8..40],
+        0u8..40,
+    )
+        .prop_map(|(threads, stall_after, filler)| StallCase { threads, stall_after, filler })
+}
+
+const FILE_SET_CAPACITY: usize = 10_000;
+
+pub fn check_never_blocks(c: &StallCase, cx: &mut Cx) -> vcore::Res {
+    let total: usize = c.threads.iter().map(|n| *n as usize).sum();
+    cx.class("file-e2e-stalled-destination");
+    cx.class_if(total > FILE_SET_CAPACITY, "file-e2e-stall:more-events-than-capacity");
+    cx.class_if(total > 2 * FILE_SET_CAPACITY, "file-e2e-stall:overflow-certain");
+    cx.class_if(c.stall_after == 0, "file-e2e-stall:worker-never-gets-anywhere");
+    cx.class_if(c.stall_after > 0, "file-e2e-stall:worker-stalls-mid-way");
+    cx.nontrivial(total > FILE_SET_CAPACITY || c.threads.len() > 1);
+    let fs = Fs::default();
+    let gate = crate::Gate::new(c.stall_after as usize);
+    fs.0.lock().unwrap().gate = Some(gate.clone());
+    emit_batcher::verif::set_delay_divisor(1);
+    let clock = VClock(Arc::new(Mutex::new(EPOCH_2024_MS + 1_000_000)));
+    let rng = VRng(Arc::new(Mutex::new(7)));
+    let files = match emit_file::set(PathBuf::from("logs/stall.txt")).max_files(100).verif_spawn_with(fs.clone(), clock, rng) {
+        Ok(f) => Arc::new(f),
+        Err(e) => return cx.fail("file-e2e/spawn-failed", format!("{e}")),
+    };
+    let (tx, rx) = std::sync::mpsc::channel::<usize>();
+    for (ti, n) in c.threads.iter().enumerate() {
+        let (files, tx, n, filler) = (files.clone(), tx.clone(), *n, c.filler);
+        std::thread::spawn(move || {
+            let text = format!("t{ti}:{}", "x".repeat(filler as usize));
+            for _ in 0..n {
+                let evt = emit::Event::new(emit::Path::new_raw("verif"), emit::Template::literal_ref(&text), emit::Empty, emit::Empty);
+                files.emit(&evt);
+            }
+            let _ = tx.send(ti);
+        });
+    }
+    drop(tx);
+    let mut done = 0;
+    let deadline = std::time::Instant::now() + Duration::from_secs(30);
+    while done < c.threads.len() {
+        match rx.recv_timeout(deadline.saturating_duration_since(std::time::Instant::now())) {
+            Ok(_) => done += 1,
+            Err(_) => break,
+        }
+    }
+    let mut res = Ok(());
+    if done < c.threads.len() {
+        // the emitting threads are stuck behind the latch: open it so that they (and the worker) can end
+        gate.open();
+        return cx.fail(
+            "C09/file-emit-blocked-by-stalled-destination",
+            format!("{} of {} emitting threads had not returned from `emit` after 30 s while the filesystem was stalled (events per thread {:?})", c.threads.len() - done, c.threads.len(), c.threads),
+        );
+    }
+    // everything was emitted while the destination made no progress: what is pending is bounded
+    let mut m = std::collections::BTreeMap::new();
+    {
+        use emit::metric::Source;
+        struct S<'a>(std::cell::RefCell<&'a mut std::collections::BTreeMap<String, usize>>);
+        impl<'a> emit::metric::sampler::Sampler for S<'a> {
+            fn metric<P: emit::Props>(&self, metric: emit::metric::Metric<P>) {
+                let v = metric.value().by_ref().cast::<usize>().unwrap_or(usize::MAX);
+                self.0.borrow_mut().insert(metric.name().get().to_string(), v);
+            }
+        }
+        files.metric_source().sample_metrics(S(std::cell::RefCell::new(&mut m)));
+    }
+    // the file set re-exports its channel's metrics with a `file_` prefix
+    let find = |name: &str| m.iter().find(|(k, _)| k.as_str() == name || k.strip_prefix("file_") == Some(name)).map(|(_, v)| *v);
+    let pending = find("queue_length");
+    let truncated = find("queue_full_truncated").unwrap_or(0);
+    match pending {
+        None => res = cx.fail("harness/file-metrics", format!("no queue_length metric among {:?}", m.keys().collect::<Vec<_>>())),
+        Some(p) if p > FILE_SET_CAPACITY => {
+            res = cx.fail("C09/file-pending-exceeds-capacity", format!("{p} events are pending in the file set's channel (capacity {FILE_SET_CAPACITY}) after {total} emits against a stalled filesystem"));
+        }
+        Some(p) => {
+            // the worker can have taken at most one batch (<= capacity) before it stalled
+            if total > 2 * FILE_SET_CAPACITY && truncated == 0 {
+                res = cx.fail("C09/file-overflow-not-counted", format!("{total} emits against a stalled filesystem, {p} pending, but queue_full_truncated is 0"));
+            }
+            cx.class_if(truncated > 0, "file-e2e-stall:truncation-counted");
+        }
+    }
+    gate.open();
+    let _ = files.blocking_flush(Duration::from_secs(20));
+    res
+}
